@@ -38,7 +38,7 @@ var c13Descs = map[string]string{
 // operations: "reg:<name>:<desc>", "serve", "shutdown", "query" (a fresh client connection while serving),
 // "dquery" (in-process HandleMessage, any state), "conn" (open a connection that is kept), "pquery" (query on the
 // kept connection, also after Shutdown: it stays served until it is closed)
-var c13Ops = []string{"reg:a.b:d1", "reg:a.c:d2", "reg:é.x:d3", "reg:a.b:d4", "reg:org.varlink.service:d1", "reg:org.varlink.resolver:d1", "serve", "shutdown", "query", "dquery", "conn", "pquery"}
+var c13Ops = []string{"reg:a.b:d1", "reg:a.c:d2", "reg:é.x:d3", "reg:a.b:d4", "reg:org.varlink.service:d1", "reg:org.varlink.resolver:d1", "serve", "servel", "shutdown", "query", "dquery", "conn", "pquery"}
 
 // capture is the ReadWriterContext handed to HandleMessage by an in-process caller.
 type capture struct{ out []byte }
@@ -175,6 +175,27 @@ func c13Body(d c13Desc) func() {
 						}
 					}
 				}
+				// routing agrees with registration: a call to <name>.R reaches that name's dispatcher iff it is registered
+				var rnames []string
+				for n := range mentioned {
+					rnames = append(rnames, n)
+				}
+				sortStrings(rnames)
+				for _, n := range rnames {
+					if n == "org.varlink.service" || n == "org.varlink.resolver" {
+						continue
+					}
+					var out map[string]interface{}
+					err := conn.Call(live, n+".R", nil, &out)
+					_, registered := descs[n]
+					if registered {
+						if err != nil || fmt.Sprint(out["r"]) != "1" {
+							fail("step %d: call to registered interface %q: reply %v, %v; want its dispatcher's reply", step, n, out, err)
+						}
+					} else if inf, ok := err.(*varlink.InterfaceNotFound); !ok || inf.Interface != n {
+						fail("step %d: call to %q which is not registered: %v, %#v; want InterfaceNotFound", step, n, out, err)
+					}
+				}
 				if _, ok := descs["org.varlink.resolver"]; ok {
 					r := varlink.VerifNewResolver(conn, "unix:/resolver")
 					var rv, rp, rver, ru string
@@ -216,14 +237,21 @@ func c13Body(d c13Desc) func() {
 					names = append(names, name)
 					descs[name] = desc
 				}
-			case op == "serve":
+			case op == "serve" || op == "servel":
 				l = vnet.NewListener(fmt.Sprintf("L%d", step))
 				ll := l
 				done := false
 				mret = &done
+				viaListen := op == "servel"
 				vsched.GoDaemon("M", func() {
-					s.VerifSetListener(ll)
-					s.DoListen(ctx, 0)
+					if viaListen {
+						// the one-call API: Bind (through the package's listen function, hooked onto ll) + serve
+						vsched.ListenHook = func(network, address string) (interface{}, error) { return ll, nil }
+						s.Listen(ctx, "unix:@vx13", 0)
+					} else {
+						s.VerifSetListener(ll)
+						s.DoListen(ctx, 0)
+					}
 					done = true
 				})
 				vsched.Yield("wait-serving", "H", func() bool { return ll.Blocked() })
@@ -248,6 +276,62 @@ func c13Body(d c13Desc) func() {
 				}
 				conn := varlink.VerifNewConnection(c)
 				doQuery(step, conn)
+				conn.Close()
+			case op == "query32":
+				// every subset of the five out-pointers, for the connection helper and (when registered) the resolver helper
+				c, err := l.Dial(fmt.Sprintf("s%d", step))
+				if err != nil {
+					fail("step %d: dial failed while serving", step)
+					continue
+				}
+				conn := varlink.VerifNewConnection(c)
+				_, haveRes := descs["org.varlink.resolver"]
+				for helper := 0; helper < 2; helper++ {
+					if helper == 1 && !haveRes {
+						break
+					}
+					wantID := id
+					wantNames := names
+					if helper == 1 {
+						wantID = [4]string{"rv", "rp", "r1", "ru"}
+						wantNames = []string{"org.varlink.resolver", "x.y"}
+					}
+					for mask := 0; mask < 32; mask++ {
+						v := [4]string{"SENTINEL", "SENTINEL", "SENTINEL", "SENTINEL"}
+						ifs := []string{"SENTINEL"}
+						var ptr [4]*string
+						for i := 0; i < 4; i++ {
+							if mask&(1<<i) != 0 {
+								ptr[i] = &v[i]
+							}
+						}
+						var ip *[]string
+						if mask&16 != 0 {
+							ip = &ifs
+						}
+						var err error
+						if helper == 0 {
+							err = conn.GetInfo(live, ptr[0], ptr[1], ptr[2], ptr[3], ip)
+						} else {
+							err = varlink.VerifNewResolver(conn, "unix:/resolver").GetInfo(live, ptr[0], ptr[1], ptr[2], ptr[3], ip)
+						}
+						if err != nil {
+							fail("step %d: GetInfo with out-pointer subset %05b: %v", step, mask, err)
+							break
+						}
+						for i := 0; i < 4; i++ {
+							if ptr[i] != nil && v[i] != wantID[i] {
+								fail("step %d: GetInfo with out-pointer subset %05b (helper %d): field %d is %q, the service's value is %q", step, mask, helper, i, v[i], wantID[i])
+							}
+							if ptr[i] == nil && v[i] != "SENTINEL" {
+								fail("step %d: GetInfo wrote through a nil out-pointer", step)
+							}
+						}
+						if ip != nil && !reflect.DeepEqual(ifs, wantNames) {
+							fail("step %d: GetInfo with out-pointer subset %05b (helper %d): interfaces %q, want %q", step, mask, helper, ifs, wantNames)
+						}
+					}
+				}
 				conn.Close()
 			case op == "conn":
 				c, err := l.Dial(fmt.Sprintf("p%d", step))
@@ -532,8 +616,12 @@ func scenariosC13(tier string) []Scen {
 		}
 		for _, op := range c13Ops {
 			switch op {
-			case "serve":
+			case "serve", "servel":
 				if serving {
+					continue
+				}
+				if op == "servel" && len(h) > 0 && base == 0 && len(h) < 2 {
+					// the Listen variant only in histories that already did something (keeps the quick set small)
 					continue
 				}
 				rec(append(h, op), true, kept)
@@ -562,6 +650,16 @@ func scenariosC13(tier string) []Scen {
 	rec([]string{"serve", "conn", "shutdown"}, false, true)
 	base = 4
 	rec([]string{"reg:a.b:d1", "serve", "conn", "shutdown"}, false, true)
+	// a service that has already been through one serving round of either API, then every continuation
+	base = 2
+	rec([]string{"servel", "shutdown"}, false, false)
+	rec([]string{"serve", "shutdown"}, false, false)
+	for _, h := range [][]string{{"reg:a.b:d1", "serve", "query32"}, {"reg:org.varlink.resolver:d1", "reg:é.x:d3", "servel", "query32"}} {
+		for id := range c13Idents {
+			d := c13Desc{Ident: id, Hist: h}
+			out = append(out, Scen{Desc: d, Bound: 0, Body: c13Body(d), Check: c13Check, Obs: c13Obs})
+		}
+	}
 	// concurrent registrations (competing for one name, and racing with the start of serving)
 	cb := 3
 	if tier != "quick" {
